@@ -504,23 +504,25 @@ def evaluate(cases, tag="C16"):
 TEXT_KEY = {"line": "line", "stream": "text", "namespace": "text"}
 
 
-def shrink(case, obligation, budget=6):
-    """Delete chunks of the input text while the same correspondence keeps failing."""
+def shrink(case, obligation, budget=4, seconds=60):
+    """Delete chunks of the input text while the same correspondence keeps failing (best effort, time-bounded)."""
+    import time
     key = TEXT_KEY.get(case["kind"])
     if key is None:
         return case
+    t0 = time.time()
     cur = dict(case)
     cur.pop("expect", None)
     cur.pop("line_kinds", None)
     for _ in range(budget):
         t = cur[key]
         n = len(t)
-        if n <= 1:
+        if n <= 1 or time.time() - t0 > seconds:
             break
         cands = []
-        for size in sorted({max(1, n // 2), max(1, n // 4), 1}, reverse=True):
+        for size in sorted({max(1, n // 2), max(1, n // 4), max(1, n // 8), 1}, reverse=True):
             for start in range(0, n, size):
-                if len(cands) >= 120:
+                if len(cands) >= 48:
                     break
                 t2 = t[:start] + t[start + size:]
                 if t2 != t:
@@ -602,8 +604,9 @@ def check(run, replay):
             info[ob] = info.get(ob, 0) + 1
             continue
         obligations[ob] = obligations.get(ob, 0) + 1
-        if ob not in first:
-            first[ob] = (c, clause, impl, model)
+        size = len(c.get(TEXT_KEY.get(c["kind"], ""), []))
+        if ob not in first or size < first[ob][4]:
+            first[ob] = (c, clause, impl, model, size)
     names_ = ["correspondence:generic_line_parser = model (csv-raw, ob-csv, ob-raw-dump, ob-vw; well-formed and malformed lines)",
               "correspondence:QUOTE_MINIMAL writer model = csv.writer",
               "correspondence:streaming loop validity test = model",
@@ -614,12 +617,14 @@ def check(run, replay):
     for nm, key in zip(names_, keys):
         bad = sum(n for ob, n in obligations.items() if ob.startswith(key))
         run.oblige(nm, bad == 0, "" if bad == 0 else "%d cases disagree" % bad)
-    for ob, (c, clause, impl, model) in first.items():
+    shrunk = 0
+    for ob, (c, clause, impl, model, _) in first.items():
         if ob.startswith("harness:") or ob.startswith("model:"):
             run.violation("broken-obligation", ob, case=show(c), impl=show(impl), model=show(model), clause=clause, found_input=False)
             continue
         small = c
-        if replay is None:
+        if replay is None and shrunk < 1:
+            shrunk += 1
             try:
                 small = shrink(c, ob)
             except Exception:                                    # shrinking is best effort
